@@ -111,3 +111,60 @@ package level
 //@   ensures Wfail(wk) ==> err != nil                                                [@errprop]
 //@   ensures !Wfail(wk) ==> err == nil                                               [@errprop]
 //@   modifies sink(w)                                                                [@frame]
+
+// ---------------------------------------------------------------- palettes (C12, C08)
+
+//@ func (*singleValuePalette).id(s; v) (idx, ok)
+//@   ensures ok == (s.v == v)                                                        [@value]
+//@   ensures ok ==> idx == 0                                                         [@value]
+//@   ensures !ok ==> idx == 1                                                        [@value]
+//@   modifies nothing                                                                [@frame]
+
+//@ func (*singleValuePalette).value(s; i) (res)
+//@   panics when i != 0
+//@   ensures res == s.v                                                              [@value]
+//@   modifies nothing                                                                [@frame]
+
+//@ func (*singleValuePalette).ReadFrom(s; r) (n, err)
+//@   let st = stream(r)
+//@   let p0 = old(Spos(st))
+//@   let k = leb32_run(Sinrow(st), p0)
+//@   ensures err == nil ==> n == k && Spos(st) == p0 + n && int(s.v) == int(int32(leb32_val(Sinrow(st), p0, k)))   [@value @count @consume]
+//@   ensures Sfail(st) ==> err != nil                                                [@errprop]
+//@   modifies s.v, stream(r)                                                         [@frame]
+
+//@ func (*singleValuePalette).WriteTo(s; w) (n, err)
+//@   let wk = sink(w)
+//@   let l0 = old(Wlen(wk))
+//@   ensures all(k, 0, l0, Wout(wk, k) == old(Wout(wk, k)))                         [@frame]
+//@   ensures err == nil ==> n == leb32_len(uint32(s.v)) && Wlen(wk) == l0 + n       [@count]
+//@   ensures err == nil ==> all(q, 0, 5, q < n ==> Wout(wk, l0+q) == leb32_byte(uint32(s.v), q))   [@value]
+//@   ensures Wfail(wk) ==> err != nil                                                [@errprop]
+//@   modifies sink(w)                                                                [@frame]
+
+//@ func (*linearPalette).value(l; i) (res)
+//@   panics when !(0 <= i && i < len(l.values))
+//@   ensures res == l.values[i]                                                      [@value]
+//@   modifies nothing                                                                [@frame]
+
+//@ func (*globalPalette).id(g; v) (idx, ok)
+//@   ensures ok && idx == int(v)                                                     [@value]
+//@   modifies nothing                                                                [@frame]
+
+//@ func (*globalPalette).value(g; i) (res)
+//@   ensures int(res) == i                                                           [@value]
+//@   modifies nothing                                                                [@frame]
+
+//@ func (*hashPalette).value(h; i) (res)
+//@   panics when !(0 <= i && i < len(h.values))
+//@   ensures res == h.values[i]                                                      [@value]
+//@   modifies nothing                                                                [@frame]
+
+// Width tables of the two configurations (protocol: 0 | 4 | 5..8 | global for block states; 0 | 1..3 | global for biomes)
+//@ func (statesCfg).bits(s; b) (res)
+//@   ensures res == ite(b == 0, 0, ite(1 <= b && b <= 4, 4, ite(5 <= b && b <= 8, b, 15)))   [@value]
+//@   modifies nothing
+
+//@ func (biomesCfg).bits(s; b) (res)
+//@   ensures res == ite(b == 0, 0, ite(1 <= b && b <= 3, b, 6))                      [@value]
+//@   modifies nothing
